@@ -32,6 +32,19 @@ X = {'a': F(-7, 2), 'b': F(100), 'c': F(1, 9)}
 DEFAULTS = {'a': F(55), 'b': F(-66), 'c': F(77, 2)}
 
 
+def zero():
+    return F(0)
+
+
+def sparse_row(i):
+    """A stored observation given as a sparse collections.defaultdict (absent feature = default value 0): row i lacks one
+    feature. Looking a value up must never insert the key into the STORED object."""
+    import collections
+    r = row(i)
+    del r[NAMES[i % 3]]
+    return collections.defaultdict(zero, r)
+
+
 def container(kind, subset):
     if kind == 'list':
         return list(subset)
@@ -83,6 +96,8 @@ def check_impute(cfgdesc, imputer, model, log, storage, strategy, subset_names, 
     if storage is not None:
         xs, ys = storage.get_data()
         rows_before = [dict(r) for r in list(xs)]
+        import copy as _copy
+        rows_lookup = [_copy.copy(r) for r in list(xs)]     # same mapping type (a sparse defaultdict answers with its default)
         ids_before = [id(r) for r in list(xs)]
         ys_before = list(ys)
     mark = log.mark()
@@ -117,14 +132,14 @@ def check_impute(cfgdesc, imputer, model, log, storage, strategy, subset_names, 
                 if not (inp[name] == DEFAULTS[name]):
                     bad('not-default', f"model input {inp}: {name!r} is not the configured default {DEFAULTS[name]}")
         elif strategy == 'joint':
-            match = [i for i, r in enumerate(rows_before) if all(inp[name] == r[name] for name in S)]
+            match = [i for i, r in enumerate(rows_lookup) if all(inp[name] == r[name] for name in S)]
             if not match:
                 bad('not-from-storage', f"model input {inp}: the values of {sorted(S)} are not those of one currently "
                                         f"stored observation")
             used.update(match)
         else:
             for name in S:
-                match = [i for i, r in enumerate(rows_before) if inp[name] == r[name]]
+                match = [i for i, r in enumerate(rows_lookup) if inp[name] == r[name]]
                 if not match:
                     bad('not-from-storage', f"model input {inp}: the value of {name!r} does not occur in a currently "
                                             f"stored observation")
@@ -166,6 +181,9 @@ def plan(tier):
             for strategy in ('joint', 'product'):
                 for n in ns:
                     tasks.append(('A', dict(storage=skind, rows=r, strategy=strategy, n=n)))
+    for skind in ('Batch', 'Interval'):
+        for strategy in ('joint', 'product'):
+            tasks.append(('A', dict(storage=skind, rows=2, strategy=strategy, n=2, rowtype='defaultdict')))
     for n in ns:
         tasks.append(('A', dict(storage=None, rows=0, strategy='default', n=n)))
     deep = tier == 'thorough'
@@ -193,7 +211,7 @@ def driver_a(cfg):
         if cfg['storage'] is not None:
             storage = make_storage(cfg['storage'], 3)
             for i in range(cfg['rows']):
-                storage.update(row(i), i)
+                storage.update(row(i) if cfg.get('rowtype') != 'defaultdict' else sparse_row(i), i)
         imputer = make_imputer(cfg['strategy'], model, storage)
         S = subsets[run.choose(len(subsets), 'subset', None, 0)]
         ck = CONTAINERS[run.choose(len(CONTAINERS), 'container', None, 0)]
